@@ -47,9 +47,11 @@ def gen_cases(tier, rnd):
                     e["data"]["url"] = {"k": "str", "lit": rnd.choice(list(classify.URLS))}
             cases.append(("split_url", evs))
         else:
-            key = rnd.choice(["title", "k1"])
+            key = rnd.choice(["title", "k1", "k1"])
             for e in evs:
                 e["data"][key] = {"k": "str", "lit": rnd.choice(list(classify.TITLES))}
+                if key != "title" and rnd.random() < 0.7:
+                    e["data"]["title"] = {"k": "str", "lit": rnd.choice(list(classify.TITLES))}     # an unrelated value that must stay
                 if rnd.random() < 0.5:
                     e["data"]["app"] = {"k": "str", "toks": [{"t": "t1", "c": "l"}]}
             cases.append(("simplify", evs, key))
